@@ -22,7 +22,11 @@ func pcfg(name string, variant byte) v1.ProxyConfigurer {
 	if variant == '2' {
 		rp += 100
 	}
-	return cw.TCPProxy(name, 8000, rp)
+	lp := 8000
+	if variant == '3' {
+		lp = 8001 // a change the server never sees: only the local backend differs
+	}
+	return cw.TCPProxy(name, lp, rp)
 }
 
 func vcfg(variant byte) v1.VisitorConfigurer {
@@ -173,6 +177,25 @@ func scReload(seq string, mode string) func(x *vs.Exec) {
 			}
 			if got := visitorPorts(w); got != wantV {
 				vs.Fail("after reload %d (%s -> %s) visitor listeners are %s, configured %s", i, prev, set, got, wantV)
+			}
+			// changed entries (even when only a client-local field changed) are closed at the server and started again
+			if mode == "ok" {
+				for j, n := range []string{"a", "b"} {
+					if set[j] != '-' && prev[j] != '-' && set[j] != prev[j] {
+						closed, again := false, false
+						for _, e := range w.Srv.Events[mark:] {
+							if e.Name == n && e.Kind == "closeproxy" {
+								closed = true
+							}
+							if e.Name == n && e.Kind == "newproxy" && closed {
+								again = true
+							}
+						}
+						if !closed || !again {
+							vs.Fail("reload %d (%s -> %s): proxy %s changed but was not closed at the server and started again (closed=%v started again=%v)", i, prev, set, n, closed, again)
+						}
+					}
+				}
 			}
 			// unchanged entries: neither closed nor registered again by this reload
 			if mode == "ok" {
@@ -359,8 +382,8 @@ func main() {
 	pool := vs.GetPool(c.Workers)
 	var names []string
 	var sets []string
-	for _, a := range "-12" {
-		for _, b := range "-12" {
+	for _, a := range "-123" {
+		for _, b := range "-123" {
 			for _, v := range "-12" {
 				sets = append(sets, string([]rune{a, b, v}))
 			}
